@@ -316,6 +316,16 @@ def _run_part(pid, part, tier, seed_value, known_sigs, n_examples, want_shrink):
                 exclude.add(sig)
                 continue
             except hypothesis.errors.Flaky as e:
+                if state["last"] is not None:
+                    # the recorded trace did violate the oracle once (e.g. behaviour that depends
+                    # on when the garbage collector runs): report it unshrunk; the replay file
+                    # decides whether it reproduces
+                    sig = state["target"]
+                    case, detail = state["last"]
+                    stats.found[sig] = {"detail": "(not reproducible on every run) " + str(detail),
+                                        "case": case}
+                    exclude.add(sig)
+                    continue
                 raise HarnessError("non-deterministic machine (harness bug): %s" % e) from e
             break
         test = given(part.strategy(tier))(body)
